@@ -23,7 +23,7 @@ class Impl:
         else:
             l4, fn, off = p.udp, self.cs.calculate_checksum_udp, 6
         ab = {"off": off, "v6": p.ipv6_packet, "src": bytes(p.ip_src), "dst": bytes(p.ip_dst),
-              "proto": p.ip.nxt if p.ipv6_packet else p.ip.p, "seg": bytes(l4), "field": l4.sum}
+              "proto": (6 if p.tcp_packet else 17) if p.ipv6_packet else p.ip.p, "seg": bytes(l4), "field": l4.sum}   # IPv6: the upper-layer protocol
         try:
             r = "Ok " + str(bool(fn(p))).lower()
         except Exception as e:
@@ -51,6 +51,26 @@ def steer(rng, build, target_total):
     if not (0 <= need <= 0xFFFF):
         return None
     return build(struct.pack(">H", need))[0]
+
+
+def add_extension_headers(rng, frame):
+    """an Ethernet/IPv6 frame with 1..3 extension headers (hop-by-hop, destination options, routing) put between the fixed header and
+    the transport segment: the transport checksum does not cover them (RFC 8200 8.1)"""
+    eth, ip6 = frame[:14], frame[14:]
+    nxt, rest = ip6[6], ip6[40:]
+    chain = []
+    kinds = [0] + [rng.choice([60, 43]) for _ in range(rng.randrange(3))] if rng.randrange(2) else [rng.choice([60, 43])]
+    for k in kinds:
+        n8 = rng.choice([0, 0, 1, 2]) if k != 43 else rng.choice([0, 0, 2])      # header length in 8-octet units beyond the first
+        L = 6 + 8 * n8
+        body = bytes([0, 0, 0, 0, 0, 0] + [0] * (8 * n8)) if k == 43 else bytes([1, L - 2] + [0] * (L - 2))   # routing type 0, no segments left / one PadN option
+        chain.append((k, n8, body))
+    out, first = b"", chain[0][0]
+    for j, (k, n8, body) in enumerate(chain):
+        nh = chain[j + 1][0] if j + 1 < len(chain) else nxt
+        out += bytes([nh, n8]) + body
+    plen = int.from_bytes(ip6[4:6], "big") + len(out)
+    return eth + ip6[:4] + plen.to_bytes(2, "big") + bytes([first]) + ip6[7:40] + out + rest
 
 
 def gen_cases(rng, tier):
@@ -111,6 +131,9 @@ def gen_cases(rng, tier):
                     b[l4off + off_:l4off + off_ + 2] = struct.pack(">H", c)
                     frame = bytes(b)
                     kind += "+valid"
+        if v6 and i % 3 == 0:
+            frame = add_extension_headers(rng, frame)
+            kind += "+ext"
         cases.append((kind + ("/tcp" if tcp else "/udp") + ("6" if v6 else "4"), frame))
     # histories: the same host pair exchanging TCP and UDP packets of EQUAL transport length, valid and corrupted, interleaved
     for g in range(12 if tier == "quick" else 150):
@@ -187,6 +210,8 @@ def main():
                 disagreements.append("%s model=%s impl=%s frame=%s" % (kind, mt, r, frame.hex()[:80]))
         hist[kind.split("+")[0] if not kind.startswith("steer") else "steer/" + kind.split("/")[1]] = hist.get(kind, 0) + 1
         hist[r] = hist.get(r, 0) + 1
+        if "+ext" in kind:
+            hist["ipv6-extension-headers"] = hist.get("ipv6-extension-headers", 0) + 1
         ck.case(frame, sample=({"kind": kind, "result": r, "frame": frame.hex()[:90]} if ck.cov["evaluations"] % 97 == 0 else None))
     # purity: the verdict is a function of the packet alone -- re-evaluate every frame in another order
     allcases = gen_cases(random_copy(ck), ck.tier)
@@ -221,7 +246,8 @@ def main():
         m.close()
     ck.cov["traces_validated_against_impl"] = ck.cov["evaluations"]
     ck.cov["rule"] = ("TCP and UDP over IPv4 and IPv6, payload lengths 2..1203 odd and even, valid / payload bit flip / random field / field 0xFFFF / field 0x0000 / "
-                      "payload word steering the pre-fold total to 0xFFFF, 0x10000, 0x1FFFF, ... with and without a then-correct checksum; distinct = distinct frames")
+                      "payload word steering the pre-fold total to 0xFFFF, 0x10000, 0x1FFFF, ... with and without a then-correct checksum; every third IPv6 frame with 1..3 "
+                      "extension headers (hop-by-hop, destination options, routing); distinct = distinct frames")
     ck.cov["dimension_histogram"] = hist
     if disagreements:
         ck.broken.append({"kind": "correspondence", "count": len(disagreements), "first": disagreements[:5]})
@@ -234,7 +260,7 @@ def main():
                      {"broken": ck.broken, "searched": "%d frames on the implementation against RFC 1071 verification: none misjudged" % ck.cov["evaluations"]}, found_input=False)
     ck.finish("proof", assumptions=[
         "abstract packet = what the code reads from dpkt (addresses, protocol field, bytes(tcp|udp), sum); dpkt frame parsing is modelled, not verified",
-        "no IPv6 extension headers (the code reads ip.nxt); UDP/IPv4 with checksum field 0 ('none') is outside the quantifier",
+        "IPv6 extension headers: dpkt skips them, the pseudo-header names the upper-layer protocol (every third IPv6 frame of the check carries 1..3 of them); UDP/IPv4 with checksum field 0 ('none') is outside the quantifier",
         "the -c filter equation over captures is stated over the main-loop model (Model/Main.v) and validated end to end by C11's thorough tier"])
 
 
